@@ -15,18 +15,31 @@ pub fn exec(op: &str, a: &[&str]) -> Option<String> {
         "c17.split" => {
             let script = Script(unhexd(a[0])); let flags: u32 = a[1].parse().unwrap();
             let brks: Vec<usize> = list_u64(a[2]).iter().map(|x| *x as usize).collect();
+            // the implementation's OWN uninterrupted run of the same script (fresh checker with the same oracle): the property
+            // is a statement about the implementation against itself, whatever interpreter state a model knows of
+            let single: Result<(Vec<Vec<u8>>, Vec<Vec<u8>>), String> = {
+                let mut c1 = Scripted::parse(a[3]);
+                match script.eval_with_stack(&mut c1, flags, None, None, None, None) { Ok((s, al, _)) => Ok((s, al)), Err(e) => Err(err_class(&e)) }
+            };
             let mut chk = Scripted::parse(a[3]);
             let (mut st, mut alt, mut pos) = (vec![], vec![], 0usize);
             let mut reported = vec![];
+            let mut failed: Option<String> = None;
             for b in brks {
-                match script.eval_with_stack(&mut chk, flags, Some(pos), Some(b), Some(st), Some(alt)) {
+                match script.eval_with_stack(&mut chk, flags, Some(pos), Some(b), Some(st.clone()), Some(alt.clone())) {
                     Ok((s, al, p)) => { st = s; alt = al; pos = p.unwrap_or(pos); reported.push(pos); }
-                    Err(e) => return Some(err_class(&e)),
+                    Err(e) => { failed = Some(err_class(&e)); break; }
                 }
             }
-            match script.eval_with_stack(&mut chk, flags, Some(pos), None, Some(st), Some(alt)) {
-                Ok((s, al, _)) => Some(format!("ok:{}|{}|{}|{}", show_stack(&s), show_stack(&al), fmt_list(&reported), log_str(&chk))),
-                Err(e) => Some(err_class(&e)),
+            let stepped: Result<(Vec<Vec<u8>>, Vec<Vec<u8>>), String> = match failed {
+                Some(e) => Err(e),
+                None => match script.eval_with_stack(&mut chk, flags, Some(pos), None, Some(st), Some(alt)) { Ok((s, al, _)) => Ok((s, al)), Err(e) => Err(err_class(&e)) },
+            };
+            let same = match (&stepped, &single) { (Ok(x), Ok(y)) => x == y, (Err(x), Err(y)) => x == y, _ => false };
+            let tail = if same { "|self=same" } else { "|self=differs" };
+            match stepped {
+                Ok((s, al)) => Some(format!("ok:{}|{}|{}|{}{}", show_stack(&s), show_stack(&al), fmt_list(&reported), log_str(&chk), tail)),
+                Err(e) => Some(format!("{}{}", e, tail)),
             }
         }
         // c17.break <script> <flags> <break> <oracle>
@@ -112,9 +125,13 @@ pub fn gen(tier: &str, rng: &mut Rng, out: &mut Vec<String>) {
         for i in 0..n { sc.push(0x51 + (i % 16) as u8); sc.push(0x6b); }
         sc.push(0x6c); sc.push(0x74);
         out.push(format!("c17.split {} 0 {} t:t:t", hexd(&sc), 2 * n));
+        out.push(format!("c17.split {} 1 {},{} t:t:t", hexd(&sc), n - n % 2, 2 * n));         // pre-genesis rules, three segments
         let mut sc: Vec<u8> = (0..n).map(|i| 0x51 + (i % 16) as u8).collect();
         sc.push(0x74); sc.push(0x75);
         out.push(format!("c17.split {} 0 {} t:t:t", hexd(&sc), n));
+        // n executed non-push opcodes (a per-run counter of operations is not carried across segments), both rule sets
+        let mut sc: Vec<u8> = vec![0x51]; for _ in 0..n { sc.push(0x8b); }                      // OP_1, n x OP_1ADD
+        for flags in [0u32, 1] { out.push(format!("c17.split {} {} {} t:t:t", hexd(&sc), flags, 1 + n / 2)); out.push(format!("c17.split {} {} {},{} t:t:t", hexd(&sc), flags, 1 + n / 3, 1 + 2 * n / 3)); }
     }
     // code separator executed in an earlier segment, signature check in a later one (recorded finding)
     out.push("c17.split 5151ab61ac 0 4 t:t:t".to_string());
